@@ -31,3 +31,175 @@ def kreplay(sub, args=(), timeout=900):
     if not last:
         raise RuntimeError('replayer produced no result: rc=%s %s' % (r.returncode, r.stderr[-1000:]))
     return json.loads(last[-1])
+
+
+def _build():
+    env = dict(os.environ, CARGO_NET_OFFLINE='true', CARGO_TARGET_DIR=os.path.join(CACHE, 'target'))
+    crate = os.path.join(kv.VERIF, 'replay')
+    manifest = os.path.join(crate, 'Cargo.toml')
+    if kv.REPO != '/repo':
+        alt = os.path.join(CACHE, 'replay_alt')
+        subprocess.run(['rm', '-rf', alt])
+        subprocess.run(['cp', '-r', crate, alt], check=True)
+        txt = open(os.path.join(alt, 'Cargo.toml')).read().replace('path = "/repo"', 'path = "%s"' % kv.REPO)
+        open(os.path.join(alt, 'Cargo.toml'), 'w').write(txt)
+        manifest = os.path.join(alt, 'Cargo.toml')
+    b = subprocess.run(['cargo', 'build', '--release', '--offline', '-q', '--manifest-path', manifest],
+                       env=env, stdout=subprocess.PIPE, stderr=subprocess.PIPE, text=True, timeout=900)
+    if b.returncode != 0:
+        raise RuntimeError('replay crate failed to build: ' + b.stderr[-2000:])
+    return os.path.join(CACHE, 'target', 'release', 'kreplay')
+
+
+TRACED = '%file,%desc,nanosleep,clock_nanosleep,flock'
+LOCKS = ('flock', 'nanosleep', 'clock_nanosleep')
+
+
+def _regions(path):
+    """Cuts an strace log into the regions between the marker calls of replay/src/c20.rs."""
+    import re
+    regs, cur, name = [], None, None
+    for ln in open(path, errors='replace'):
+        m = re.match(r'^(?:\d+\s+)?(\w+)\((.*)$', ln)
+        if not m:
+            continue
+        sc, rest = m.group(1), m.group(2)
+        mk = re.search(r'"/kv-marker/([^"]+)"', rest)
+        if mk:
+            if name is not None:
+                regs.append((name, cur))
+            name, cur = mk.group(1), []
+            continue
+        if name is not None:
+            cur.append((sc, rest.rstrip()))
+    return regs, name
+
+
+def c20_search(tier='quick'):
+    """Bounded stand-in for C20 / C06 (see replay/src/c20.rs).  Returns a failing input (dict) or None."""
+    import collections, re, tempfile
+    exe = _build()
+    sizes = (3, 1500) if tier == 'quick' else (0, 10, 100, 2000)
+    runs = {}
+    for n in sizes:
+        tf = tempfile.NamedTemporaryFile(prefix='kvtrace', suffix='.log', delete=False)
+        tf.close()
+        args = ['strace', '-f', '-qq', '-e', 'trace=' + TRACED, '-o', tf.name, exe, 'c20', str(n)] + (['linked'] if n == sizes[0] else [])
+        timed_out = False
+        try:
+            subprocess.run(args, stdout=subprocess.PIPE, stderr=subprocess.PIPE, text=True, timeout=60)
+        except subprocess.TimeoutExpired:
+            timed_out = True
+        regs, last = _regions(tf.name)
+        os.unlink(tf.name)
+        if timed_out:
+            return {'entries': n, 'operation': last, 'what': 'the operation did not complete within 60 s (it waits on something)'}
+        if not regs or not any(nm.endswith(':end') for nm, _ in regs) and last is None:
+            raise RuntimeError('no marker regions in the trace (strace unavailable?)')
+        runs[n] = regs
+        for nm, calls in regs:
+            if nm.endswith(':end'):
+                continue
+            for sc, rest in calls:
+                if sc in LOCKS or (sc == 'fcntl' and re.search(r'F_(OFD_)?SETLKW?|F_GETLK', rest)):
+                    return {'entries': n, 'operation': nm, 'what': 'the operation takes a lock or sleeps', 'call': (sc + '(' + rest)[:200]}
+            opened, peak = set(), 0
+            for sc, rest in calls:
+                m = re.search(r'=\s*(-?\d+)', rest[rest.rfind(')'):]) if ')' in rest else None
+                ret = int(m.group(1)) if m else None
+                if sc in ('openat', 'open', 'creat', 'openat2') and ret is not None and ret >= 0:
+                    opened.add(ret)
+                    peak = max(peak, len(opened))
+                elif sc == 'close':
+                    a = re.match(r'\s*(\d+)', rest)
+                    if a:
+                        opened.discard(int(a.group(1)))
+            bound = 3 if nm.startswith('stacked') else 2
+            if peak > bound:
+                return {'entries': n, 'operation': nm, 'what': 'the operation holds %d descriptors open at once (bound %d)' % (peak, bound)}
+            if opened:
+                return {'entries': n, 'operation': nm, 'what': '%d descriptor(s) opened by the operation are still open after it returned and its result was dropped' % len(opened)}
+            if nm.split(':')[1].startswith(('get', 'touch')) and not nm.startswith('stacked'):
+                attempts = sum(1 for sc, _ in calls if sc in ('openat', 'open', 'openat2'))
+                dirs = 2 if nm.startswith('sharded') else 1
+                if attempts > 2 * dirs:
+                    return {'entries': n, 'operation': nm, 'what': '%d open attempts for a lookup over %d director(y/ies)' % (attempts, dirs)}
+    base = sizes[0]
+    ref = {nm: collections.Counter(sc for sc, _ in calls) for nm, calls in runs[base]}
+    for n in sizes[1:]:
+        for nm, calls in runs[n]:
+            if nm.endswith(':end') or nm.startswith('linked'):
+                continue
+            cnt = collections.Counter(sc for sc, _ in calls)
+            # the advisory re-touch of a hit (utimensat / futimens) happens or not depending on what the kernel did to
+            # the access time at open, i.e. on timing: at most one such call per copy may come or go between two runs
+            diff = {k: (ref[nm].get(k, 0), cnt.get(k, 0)) for k in set(ref.get(nm, {})) | set(cnt)
+                    if ref.get(nm, {}).get(k, 0) != cnt.get(k, 0) and not (k in ('utimensat', 'futimens') and abs(ref[nm].get(k, 0) - cnt.get(k, 0)) <= 4)}
+            if nm in ref and diff:
+                return {'operation': nm, 'what': 'the number of system calls depends on the number of entries',
+                        'entries_compared': [base, n], 'calls_that_differ (few, many)': diff}
+    return None
+
+
+FAULTABLE = ('openat', 'read', 'write', 'fsync', 'fdatasync', 'rename', 'renameat', 'renameat2', 'link', 'linkat', 'unlink', 'unlinkat',
+             'utimensat', 'chmod', 'fchmod', 'fchmodat', 'statx', 'newfstatat', 'fstat', 'lseek', 'mkdir', 'mkdirat', 'copy_file_range',
+             'sendfile', 'close', 'getdents64')
+C18_QUICK = ['plain-set', 'plain-put', 'plain-putexisting', 'plain-ensure', 'plain-promote', 'plain-replace', 'plain-gethit-checked', 'sharded-put-fresh']
+C18_THOROUGH = C18_QUICK + ['sharded-set', 'sharded-ensure', 'sharded-promote', 'plain-set-fresh', 'plain-ensure-fresh', 'plain-touch', 'plain-get', 'plain-ensurehit-checked',
+                            'plain-promote-checked']
+
+
+def c18_search(tier='quick'):
+    """Bounded stand-in for C18: every system call of one operation fails in turn (strace fault injection, EIO); the
+    program judges the outcome itself (replay/src/c18.rs).  Returns a failing input (dict) or None."""
+    import collections, re, tempfile
+    exe = _build()
+    runs = 0
+    for scen in (C18_QUICK if tier == 'quick' else C18_THOROUGH):
+        tf = tempfile.NamedTemporaryFile(prefix='kvtrace', suffix='.log', delete=False)
+        tf.close()
+        p = subprocess.run(['strace', '-f', '-qq', '-e', 'trace=' + ','.join(FAULTABLE), '-o', tf.name, exe, 'c18', scen],
+                           stdout=subprocess.PIPE, stderr=subprocess.PIPE, text=True, timeout=60)
+        before, inside, state = collections.Counter(), collections.Counter(), 0
+        for ln in open(tf.name, errors='replace'):
+            m = re.match(r'^(?:\d+\s+)?(\w+)\(', ln)
+            if not m:
+                continue
+            sc = m.group(1)
+            if '"/kv-marker/begin"' in ln:
+                before[sc] += 1
+                state = 1
+                continue
+            if '"/kv-marker/end"' in ln:
+                state = 2
+                continue
+            if state == 0:
+                before[sc] += 1
+            elif state == 1:
+                inside[sc] += 1
+        os.unlink(tf.name)
+        if state != 2:
+            raise RuntimeError('c18: no marker region in the trace of %s (strace unavailable?): %s' % (scen, p.stderr[-300:]))
+        base = [ln for ln in p.stdout.splitlines() if ln.startswith('{')]
+        if not base or json.loads(base[-1]).get('outcome') != 'ok' or json.loads(base[-1]).get('problems'):
+            return {'scenario': scen, 'fault': None, 'what': 'the operation misbehaves even without a fault', 'report': base[-1] if base else p.stderr[-300:]}
+        op = scen.split('-')[1]
+        for sc, n in sorted(inside.items()):
+            for k in range(1, n + 1):
+                runs += 1
+                q = subprocess.run(['strace', '-f', '-qq', '-e', 'trace=' + sc, '-e', 'inject=%s:error=EIO:when=%d' % (sc, before[sc] + k), '-o', '/dev/null', exe, 'c18', scen],
+                                   stdout=subprocess.PIPE, stderr=subprocess.PIPE, text=True, timeout=60)
+                out = [ln for ln in q.stdout.splitlines() if ln.startswith('{')]
+                if not out:
+                    return {'scenario': scen, 'fault': '%s #%d fails with EIO' % (sc, k), 'what': 'the process died (abort or unhandled panic)', 'stderr': q.stderr[-300:]}
+                rep = json.loads(out[-1])
+                documented = sc in ('fsync', 'fdatasync') and op in ('set', 'put', 'putexisting')
+                if rep['outcome'] == 'panic' and not documented:
+                    return {'scenario': scen, 'fault': '%s #%d of the operation fails with EIO' % (sc, k), 'what': 'the operation panics', 'stderr': q.stderr[-300:]}
+                if sc in ('fsync', 'fdatasync') and rep.get('visible_after_op') and not rep.get('was_in_write_cache'):
+                    return {'scenario': scen, 'fault': '%s #%d of the operation fails with EIO' % (sc, k), 'outcome': rep['outcome'],
+                            'what': 'a failed flush was followed by publication: the key is visible in the write cache'}
+                if rep['problems'] and not (rep['outcome'] == 'panic' and documented):
+                    return {'scenario': scen, 'fault': '%s #%d of the operation fails with EIO' % (sc, k), 'outcome': rep['outcome'], 'what': '; '.join(rep['problems'])[:600]}
+    c18_search.runs = runs
+    return None
